@@ -7,9 +7,13 @@
         a complete lexeme s followed by the text r is recognised with exactly the same extent;
      boundary_K r       a condition on the first character(s) of r only; it is the weakest such condition:
      boundary_K_weakest :  boundary_K r = false -> exists s, lexr_K s = Some [] /\ lexr_K (s ++ r) <> Some r
-        (proved for the kinds whose boundary is not `true`);
-     boundary_K_blank / boundary_K_comma_blank : a blank (space, tab, CR, LF), the end of the text, and
-        ',' followed by a blank are boundaries of every value terminal.
+        (proved for INLINE_COMMENT, WHITESPACE, DATE, NUMBER, TAG, LINK, ACCOUNT, CURRENCY; the other boundaries
+        are `true`, except BLOCK_COMMENT's, for which only sufficiency is proved);
+     boundary_K_sep, blank_is_boundary : a blank (space, tab, CR, LF), the end of the text, and ',' followed by
+        a blank are boundaries of every value terminal (a comment ends at the line end only; WHITESPACE and
+        BLOCK_COMMENT have their own boundaries).
+   BLOCK_COMMENT's boundary depends on which alternative matched s (indented or not): boundary_block (block_indented s).
+   DATE's boundary is the weakest condition on r alone; after a two-digit day any r keeps the extent (lexr_d12_app).
 
    separated_relex: a sequence of lexemes printed with gaps that start with a blank or with ", " is scanned
    back, kind by kind, into exactly these lexemes.  The kind sequence is given: which terminal lark's
@@ -222,7 +226,8 @@ Proof.
     assert (T : match lexr_inline (s2 ++ r) with Some s4 => block_loop ind f'' s4 | None => a ++ r end = r).
     { destruct s3 as [|x s3'].
       + rewrite (lexr_inline_app s2 [] r E3 (or_intror Hbi)). cbn [app]. apply block_loop_stop. exact Hc.
-      + rewrite (lexr_inline_app s2 (x :: s3') r E3 (or_introl ltac:(discriminate))).
+      + assert (Hne : x :: s3' <> []) by discriminate.
+        rewrite (lexr_inline_app s2 (x :: s3') r E3 (or_introl Hne)).
         apply (IH _ H). rewrite app_length. lia. }
     destruct ind.
     + rewrite (lexr_ws1_app _ _ r E2 (or_introl Hs2)). exact T.
@@ -244,7 +249,8 @@ Proof.
     assert (Hc : block_cont true r = false) by (destruct (block_cont true r); [discriminate|reflexivity]).
     destruct b as [|x b'].
     + rewrite (lexr_inline_app s1 [] r E2 (or_intror Hbi)). cbn [app]. f_equal. apply block_loop_stop. exact Hc.
-    + rewrite (lexr_inline_app s1 _ r E2 (or_introl ltac:(discriminate))). f_equal.
+    + assert (Hne : x :: b' <> []) by discriminate.
+      rewrite (lexr_inline_app s1 _ r E2 (or_introl Hne)). f_equal.
       apply (block_loop_app true r Hb _ _ H'). lia.
   - destruct (lexr_inline s) as [b|] eqn:E2; [|discriminate]. intros H Hb. inversion H as [H'].
     rewrite (lexr_ws1_none_app _ _ r E2).
@@ -252,7 +258,8 @@ Proof.
     assert (Hc : block_cont false r = false) by (destruct (block_cont false r); [discriminate|reflexivity]).
     destruct b as [|x b'].
     + rewrite (lexr_inline_app s [] r E2 (or_intror Hbi)). cbn [app]. f_equal. apply block_loop_stop. exact Hc.
-    + rewrite (lexr_inline_app s _ r E2 (or_introl ltac:(discriminate))). f_equal.
+    + assert (Hne : x :: b' <> []) by discriminate.
+      rewrite (lexr_inline_app s _ r E2 (or_introl Hne)). f_equal.
       apply (block_loop_app false r Hb _ _ H'). lia.
 Qed.
 Lemma boundary_block_nil ind : boundary_block ind [] = true.
@@ -266,6 +273,11 @@ Proof.
   change (is_crnl NL) with true. cbn [andb].
   destruct ind; cbn [lexr_ws1 starts_with1]; [rewrite Hw; reflexivity | rewrite Hs; reflexivity].
 Qed.
+
+Lemma boundary_block_ends ind :
+  boundary_block ind [] = true /\
+  (forall c t, is_ws c = false -> (c =? SEMI) = false -> (c =? CR) = false -> boundary_block ind (NL :: c :: t) = true).
+Proof. split; [exact (boundary_block_nil ind) | exact (boundary_block_eol ind)]. Qed.
 
 (* ---------------------------------------------------------------------------------------------- *)
 (* DATE: the day field is 1-2 digits, greedy: a digit after a one-digit day would be taken          *)
@@ -292,7 +304,8 @@ Proof.
   destruct (lexr_sep_shape _ _ E3) as [c3 [Hs2 Hc3]].
   rewrite (take_app_stop _ _ _ _ r Ha), E4, (skip_app_cons _ _ _ _ r Ha).
   unfold lexr_sep at 1. rewrite Hc1.
-  rewrite (lexr_d12_app s1 s2 r E2 (or_introl ltac:(subst s2; discriminate))).
+  assert (Hne : s2 <> []) by (subst s2; discriminate).
+  rewrite (lexr_d12_app s1 s2 r E2 (or_introl Hne)).
   subst s2. cbn [app]. unfold lexr_sep. rewrite Hc3.
   exact (lexr_d12_app s3 [] r H (or_intror Hr)).
 Qed.
@@ -303,11 +316,698 @@ Proof.
   destruct r as [|c r]; [discriminate|]. unfold boundary_date in Hb. cbn [starts_with] in Hb.
   destruct (is_digit c) eqn:Ed; [|discriminate].
   assert (E : lexr_date ([50; 48; 48; 48; 45; 49; 45; 49] ++ c :: r) = Some r).
-  { cbn [app]. unfold lexr_date. cbn [take skip]. change (is_digit 50) with true. change (is_digit 48) with true.
-    change (is_digit 45) with false. cbv iota. cbn [take skip].
-    change (4 <=? zlen [50; 48; 48; 48]) with true. cbv iota.
-    unfold lexr_sep. change (is_datesep 45) with true. cbv iota.
-    unfold lexr_d12 at 1. change (is_digit 49) with true. cbv iota. change (is_digit 45) with false. cbv iota.
-    unfold lexr_d12. change (is_digit 49) with true. cbv iota. rewrite Ed. reflexivity. }
+  { cbn [app]. unfold lexr_date, lexr_sep, lexr_d12. cbn. rewrite Ed. reflexivity. }
   rewrite E. intros H. inversion H as [H']. apply (f_equal (@length Z)) in H'. cbn [length] in H'. lia.
 Qed.
+
+(* ---------------------------------------------------------------------------------------------- *)
+(* NUMBER: a further digit, a '.', or a further group ',ddd' would be taken                         *)
+Definition comma3 (r : str) : bool :=
+  match r with
+  | c :: d1 :: d2 :: d3 :: _ => (c =? COMMA) && is_digit d1 && is_digit d2 && is_digit d3
+  | _ => false
+  end.
+Definition boundary_number (r : str) : bool :=
+  negb (starts_with is_digit r) && negb (starts_with1 DOT r) && negb (comma3 r).
+
+Lemma comma_groups_stop r : comma3 r = false -> comma_groups r = (r, 0).
+Proof.
+  destruct r as [|c [|d1 [|d2 [|d3 r]]]]; try reflexivity.
+  cbn [comma3 comma_groups]. intros ->. reflexivity.
+Qed.
+(* what stopped the groups is decided by t alone (t is empty or does not start with ','), or by r *)
+Lemma comma_groups_app r : comma3 r = false -> forall n a, (length a <= n)%nat -> forall t k,
+  comma_groups a = (t, k) -> (t = [] \/ starts_with1 COMMA t = false) -> comma_groups (a ++ r) = (t ++ r, k).
+Proof.
+  intros Hr. induction n as [|n IH]; intros a Hn t k H Ht.
+  - destruct a; [|cbn in Hn; lia]. cbn in H. inversion H; subst t k. cbn [app]. exact (comma_groups_stop _ Hr).
+  - assert (Hstop : comma_groups a = (a, 0) -> (t, k) = (a, 0) -> comma_groups (a ++ r) = (t ++ r, k)).
+    { intros _ E. inversion E; subst t k. destruct a as [|c a]; [exact (comma_groups_stop _ Hr)|].
+      destruct Ht as [Ht|Ht]; [discriminate|]. cbn [starts_with1] in Ht. cbn [app].
+      apply comma_groups_other. exact Ht. }
+    destruct a as [|c [|d1 [|d2 [|d3 a]]]]; try (apply Hstop; [reflexivity | symmetry; exact H]).
+    cbn [comma_groups] in H. cbn [app comma_groups].
+    destruct ((c =? COMMA) && is_digit d1 && is_digit d2 && is_digit d3) eqn:E.
+    + destruct (comma_groups a) as [t' k'] eqn:Ea. inversion H; subst t k.
+      assert (Hla : (length a <= n)%nat) by (cbn [length] in Hn; lia).
+      rewrite (IH a Hla t' k' Ea Ht). reflexivity.
+    + inversion H; subst t k. destruct Ht as [Ht|Ht]; [discriminate|]. cbn [starts_with1] in Ht.
+      rewrite Ht in E. reflexivity.
+Qed.
+Lemma lexr_frac_app t r : lexr_frac t = [] -> starts_with is_digit r = false -> starts_with1 DOT r = false ->
+  lexr_frac (t ++ r) = r.
+Proof.
+  intros Ht Hd Hdot. destruct (lexr_frac_nil _ Ht) as [-> | [fr [-> Hfr]]]; cbn [app].
+  - unfold lexr_frac. destruct r as [|c r]; [reflexivity|]. cbn [starts_with1] in Hdot. rewrite Hdot. reflexivity.
+  - unfold lexr_frac. change (DOT =? DOT) with true. cbv iota. rewrite (skip_all_app _ _ _ Hfr). exact (skip_id _ _ Hd).
+Qed.
+Lemma frac_shape_comma t : lexr_frac t = [] -> t = [] \/ starts_with1 COMMA t = false.
+Proof. intros H. destruct (lexr_frac_nil _ H) as [-> | [fr [-> _]]]; [left|right]; reflexivity. Qed.
+Theorem extent_stable_number s r :
+  lexr_number s = Some [] -> boundary_number r = true -> lexr_number (s ++ r) = Some r.
+Proof.
+  unfold lexr_number, boundary_number. intros H Hb.
+  apply andb_prop in Hb as [Hb H3]. apply andb_prop in Hb as [Hd Hdot].
+  assert (Hd' : starts_with is_digit r = false) by (destruct (starts_with is_digit r); [discriminate|reflexivity]).
+  assert (Hdot' : starts_with1 DOT r = false) by (destruct (starts_with1 DOT r); [discriminate|reflexivity]).
+  assert (H3' : comma3 r = false) by (destruct (comma3 r); [discriminate|reflexivity]).
+  destruct (take_skip_app is_digit s r Hd') as [Et Es]. rewrite Et, Es.
+  destruct (zlen (take is_digit s) =? 0); [discriminate|].
+  destruct (comma_groups (skip is_digit s)) as [t k] eqn:Ec.
+  destruct ((zlen (take is_digit s) <=? 3) && (1 <=? k)) eqn:EA; inversion H as [H'].
+  - rewrite (comma_groups_app r H3' _ _ (Nat.le_refl _) t k Ec (frac_shape_comma _ H')), EA.
+    rewrite (lexr_frac_app _ _ H' Hd' Hdot'). reflexivity.
+  - assert (Ea : comma_groups (skip is_digit s) = (skip is_digit s, 0)).
+    { destruct (lexr_frac_nil _ H') as [-> | [fr [-> _]]]; [reflexivity | apply comma_groups_other; reflexivity]. }
+    rewrite Ea in Ec. inversion Ec; subst t k.
+    rewrite (comma_groups_app r H3' _ _ (Nat.le_refl _) _ 0 Ea (frac_shape_comma _ H')), EA.
+    rewrite (lexr_frac_app _ _ H' Hd' Hdot'). reflexivity.
+Qed.
+
+Lemma lexr_frac_length x : (length (lexr_frac x) <= length x)%nat.
+Proof.
+  unfold lexr_frac. destruct x as [|c x]; [cbn; lia|].
+  destruct (c =? DOT); [pose proof (skip_length is_digit x); cbn [length]; lia | lia].
+Qed.
+Lemma comma_groups_fst_length a : (length (fst (comma_groups a)) <= length a)%nat.
+Proof.
+  destruct (comma_groups_shape (length a) a (Nat.le_refl _)) as [g [Hg _]].
+  apply (f_equal (@length Z)) in Hg. rewrite app_length in Hg. lia.
+Qed.
+Lemma comma_groups_nonneg : forall n a, (length a <= n)%nat -> 0 <= snd (comma_groups a).
+Proof.
+  induction n as [|n IH]; intros a Hn.
+  - destruct a; [cbn; lia|cbn in Hn; lia].
+  - destruct a as [|c [|d1 [|d2 [|d3 a]]]]; try (cbn; lia). cbn [comma_groups].
+    destruct ((c =? COMMA) && is_digit d1 && is_digit d2 && is_digit d3); [|cbn; lia].
+    assert (Hl : (length a <= n)%nat) by (cbn [length] in Hn; lia). specialize (IH a Hl).
+    destruct (comma_groups a) as [t k]. cbn [snd] in *. lia.
+Qed.
+Lemma boundary_number_weakest r : boundary_number r = false ->
+  exists s, lexr_number s = Some [] /\ lexr_number (s ++ r) <> Some r.
+Proof.
+  intros Hb. exists [49]. split; [reflexivity|]. destruct r as [|c r]; [discriminate|].
+  unfold boundary_number in Hb. cbn [starts_with starts_with1] in Hb.
+  cbn [app]. unfold lexr_number. cbn [take skip]. change (is_digit 49) with true. cbv iota.
+  destruct (is_digit c) eqn:Ed.
+  - (* a digit follows *)
+    pose proof (zlen_nonneg (take is_digit r)) as Hz.
+    destruct (zlen (49 :: c :: take is_digit r) =? 0) eqn:E0; [rewrite !zlen_cons in E0; lia|].
+    pose proof (comma_groups_fst_length (skip is_digit r)) as Hg. pose proof (skip_length is_digit r) as Hs.
+    destruct (comma_groups (skip is_digit r)) as [t k]. cbn [fst] in Hg.
+    destruct ((zlen (49 :: c :: take is_digit r) <=? 3) && (1 <=? k)); intros H; inversion H as [H'];
+      apply (f_equal (@length Z)) in H'; cbn [length] in H'.
+    + pose proof (lexr_frac_length t). lia.
+    + pose proof (lexr_frac_length (skip is_digit r)). lia.
+  - change (zlen [49] =? 0) with false. cbv iota. change (zlen [49] <=? 3) with true. cbn [andb].
+    destruct (c =? DOT) eqn:Edot.
+    + (* '.' follows *)
+      apply Z.eqb_eq in Edot. subst c. rewrite comma_groups_other by reflexivity.
+      change (1 <=? 0) with false. cbv iota. unfold lexr_frac. change (DOT =? DOT) with true. cbv iota.
+      intros H. inversion H as [H']. pose proof (skip_length is_digit r) as Hs. rewrite H' in Hs. cbn [length] in Hs. lia.
+    + (* ',ddd' follows *)
+      cbn [negb andb] in Hb. assert (H3 : comma3 (c :: r) = true) by (destruct (comma3 (c :: r)); [reflexivity|discriminate]).
+      destruct r as [|d1 [|d2 [|d3 r]]]; try discriminate H3. cbn [comma3] in H3. cbn [comma_groups]. rewrite H3.
+      pose proof (comma_groups_fst_length r) as Hg. pose proof (comma_groups_nonneg _ r (Nat.le_refl _)) as Hk.
+      destruct (comma_groups r) as [t k]. cbn [fst snd] in *.
+      destruct (1 <=? k + 1) eqn:E1; [|lia].
+      intros H. inversion H as [H']. apply (f_equal (@length Z)) in H'. cbn [length] in H'.
+      pose proof (lexr_frac_length t). lia.
+Qed.
+
+(* ---------------------------------------------------------------------------------------------- *)
+(* TAG / LINK: a further name character would be taken                                             *)
+Definition boundary_tag (r : str) : bool := negb (starts_with is_tagchar r).
+Definition boundary_link (r : str) : bool := negb (starts_with is_tagchar r).
+Lemma extent_stable_prefixed x s r :
+  lexr_prefixed x s = Some [] -> starts_with is_tagchar r = false -> lexr_prefixed x (s ++ r) = Some r.
+Proof.
+  unfold lexr_prefixed. destruct s as [|c s]; [discriminate|]. cbn [app].
+  destruct (c =? x); [|discriminate]. intros H Hr.
+  destruct (take_skip_app is_tagchar s r Hr) as [Et Es]. rewrite Et, Es.
+  destruct (is_nil (take is_tagchar s)); [discriminate|]. inversion H as [H']. rewrite H'. reflexivity.
+Qed.
+Theorem extent_stable_tag s r : lexr_tag s = Some [] -> boundary_tag r = true -> lexr_tag (s ++ r) = Some r.
+Proof.
+  unfold lexr_tag, boundary_tag. intros H Hb. apply extent_stable_prefixed; [exact H|].
+  destruct (starts_with is_tagchar r); [discriminate|reflexivity].
+Qed.
+Theorem extent_stable_link s r : lexr_link s = Some [] -> boundary_link r = true -> lexr_link (s ++ r) = Some r.
+Proof.
+  unfold lexr_link, boundary_link. intros H Hb. apply extent_stable_prefixed; [exact H|].
+  destruct (starts_with is_tagchar r); [discriminate|reflexivity].
+Qed.
+Lemma prefixed_weakest x r : starts_with is_tagchar r = true ->
+  exists s, lexr_prefixed x s = Some [] /\ lexr_prefixed x (s ++ r) <> Some r.
+Proof.
+  intros Hb. exists [x; 97]. split.
+  - unfold lexr_prefixed. rewrite Z.eqb_refl. reflexivity.
+  - destruct r as [|c r]; [discriminate|]. cbn [starts_with] in Hb. cbn [app]. unfold lexr_prefixed.
+    rewrite Z.eqb_refl. cbn [take skip]. change (is_tagchar 97) with true. cbv iota. rewrite Hb. cbn [is_nil].
+    intros H. inversion H as [H']. pose proof (skip_length is_tagchar r) as Hl. rewrite H' in Hl. cbn [length] in Hl. lia.
+Qed.
+Lemma boundary_tag_weakest r : boundary_tag r = false -> exists s, lexr_tag s = Some [] /\ lexr_tag (s ++ r) <> Some r.
+Proof.
+  unfold boundary_tag. intros H. apply prefixed_weakest. destruct (starts_with is_tagchar r); [reflexivity|discriminate].
+Qed.
+Lemma boundary_link_weakest r : boundary_link r = false -> exists s, lexr_link s = Some [] /\ lexr_link (s ++ r) <> Some r.
+Proof.
+  unfold boundary_link. intros H. apply prefixed_weakest. destruct (starts_with is_tagchar r); [reflexivity|discriminate].
+Qed.
+
+(* ---------------------------------------------------------------------------------------------- *)
+(* META_KEY (closed by its ':'), BOOL, NULL, flags (fixed spellings): any continuation.
+   (That TRUEX is one CURRENCY and not BOOL then X is decided by lark's choice among the terminals that
+   match at a position - longest match / priority -, not by the extent of one terminal.)           *)
+Definition boundary_metakey (r : str) : bool := true.
+Definition boundary_bool (r : str) : bool := true.
+Definition boundary_null (r : str) : bool := true.
+Definition boundary_pflag (r : str) : bool := true.
+Definition boundary_txflag (r : str) : bool := true.
+Lemma lexr_metakey_app s t r : lexr_metakey s = Some t -> lexr_metakey (s ++ r) = Some (t ++ r).
+Proof.
+  unfold lexr_metakey. destruct s as [|c s]; [discriminate|]. cbn [app].
+  destruct (is_lower c); [|discriminate].
+  destruct (skip is_keychar s) as [|d u] eqn:E.
+  - destruct (is_nil (take is_keychar s)); discriminate.
+  - rewrite (take_app_stop _ _ _ _ r E), (skip_app_cons _ _ _ _ r E).
+    destruct (is_nil (take is_keychar s)); [discriminate|]. destruct (d =? COLON); [|discriminate].
+    intros H. inversion H. reflexivity.
+Qed.
+Theorem extent_stable_metakey s r :
+  lexr_metakey s = Some [] -> boundary_metakey r = true -> lexr_metakey (s ++ r) = Some r.
+Proof. intros H _. exact (lexr_metakey_app s [] r H). Qed.
+Lemma strip_prefix_app p s t r : strip_prefix p s = Some t -> strip_prefix p (s ++ r) = Some (t ++ r).
+Proof.
+  revert s. induction p as [|x p IH]; intros s; cbn [strip_prefix].
+  - intros H. inversion H. reflexivity.
+  - destruct s as [|c s]; [discriminate|]. cbn [app]. destruct (c =? x); [apply IH | discriminate].
+Qed.
+Theorem extent_stable_bool s r : lexr_bool s = Some [] -> boundary_bool r = true -> lexr_bool (s ++ r) = Some r.
+Proof.
+  unfold lexr_bool. intros H _. destruct (strip_prefix FALSE_ s) as [t|] eqn:E.
+  - inversion H; subst t. rewrite (strip_prefix_app _ _ _ r E). reflexivity.
+  - apply strip_prefix_full in H. subst s. cbn [app]. reflexivity.
+Qed.
+Theorem extent_stable_null s r : lexr_null s = Some [] -> boundary_null r = true -> lexr_null (s ++ r) = Some r.
+Proof. unfold lexr_null. intros H _. exact (strip_prefix_app _ _ _ r H). Qed.
+Theorem extent_stable_pflag s r : lexr_pflag s = Some [] -> boundary_pflag r = true -> lexr_pflag (s ++ r) = Some r.
+Proof.
+  unfold lexr_pflag. destruct s as [|c s]; [discriminate|]. cbn [app]. destruct (is_flagchar c); [|discriminate].
+  intros H _. inversion H. reflexivity.
+Qed.
+Lemma flagchar_not_t c : is_flagchar c = true -> (c =? 116) = false.
+Proof. unfold is_flagchar. lia. Qed.
+Theorem extent_stable_txflag s r :
+  lexr_txflag s = Some [] -> boundary_txflag r = true -> lexr_txflag (s ++ r) = Some r.
+Proof.
+  unfold lexr_txflag. intros H _. destruct (strip_prefix TXN_ s) as [t|] eqn:E.
+  - inversion H; subst t. rewrite (strip_prefix_app _ _ _ r E). reflexivity.
+  - pose proof (extent_stable_pflag s r H eq_refl) as Hp. rewrite Hp.
+    unfold lexr_pflag in H. destruct s as [|c s]; [discriminate|]. destruct (is_flagchar c) eqn:Ef; [|discriminate].
+    cbn [app]. unfold TXN_. cbn [strip_prefix]. rewrite (flagchar_not_t _ Ef). reflexivity.
+Qed.
+
+(* ---------------------------------------------------------------------------------------------- *)
+(* ACCOUNT: a further component character, or ':' and a component start, would be taken            *)
+Definition acct_more (r : str) : bool :=
+  match r with c :: d :: _ => (c =? COLON) && is_acct_name_start d | _ => false end.
+Definition boundary_account (r : str) : bool := negb (starts_with is_acct_body r) && negb (acct_more r).
+Lemma acct_groups_stop f r : acct_more r = false -> acct_groups f r = (r, 0).
+Proof.
+  destruct f as [|f]; [reflexivity|]. cbn [acct_groups]. destruct r as [|c [|d r]]; try reflexivity.
+  cbn [acct_more]. intros ->. reflexivity.
+Qed.
+Lemma acct_groups_nil f : acct_groups f [] = ([], 0).
+Proof. destruct f; reflexivity. Qed.
+Lemma acct_groups_app r : starts_with is_acct_body r = false -> acct_more r = false ->
+  forall f a k, acct_groups f a = ([], k) ->
+  forall f', (length (a ++ r) <= f')%nat -> acct_groups f' (a ++ r) = (r, k).
+Proof.
+  intros Hb Hm. induction f as [|f IH]; intros a k H f' Hf'.
+  - cbn [acct_groups] in H. inversion H; subst a k. cbn [app]. apply acct_groups_stop. exact Hm.
+  - cbn [acct_groups] in H.
+    destruct a as [|c [|d a]]; try (inversion H; subst k; cbn [app]; apply acct_groups_stop; exact Hm).
+    destruct ((c =? COLON) && is_acct_name_start d) eqn:E; [|inversion H].
+    destruct (acct_groups f (skip is_acct_body a)) as [t k'] eqn:Ea. inversion H; subst t k.
+    cbn [app length] in Hf'. destruct f' as [|f'']; [lia|]. cbn [app acct_groups]. rewrite E.
+    destruct (skip is_acct_body a) as [|x u] eqn:Es.
+    + rewrite (skip_app_nil _ _ r Es), (skip_id _ _ Hb), (acct_groups_stop _ _ Hm).
+      rewrite acct_groups_nil in Ea. inversion Ea. reflexivity.
+    + rewrite (skip_app_cons _ _ _ _ r Es).
+      assert (Hl : (length ((x :: u) ++ r) <= f'')%nat).
+      { pose proof (skip_length is_acct_body a) as Hl. rewrite Es in Hl. rewrite app_length in *. lia. }
+      change (x :: u ++ r) with ((x :: u) ++ r). rewrite (IH _ _ Ea _ Hl). reflexivity.
+Qed.
+Theorem extent_stable_account s r :
+  lexr_account s = Some [] -> boundary_account r = true -> lexr_account (s ++ r) = Some r.
+Proof.
+  unfold lexr_account, boundary_account. intros H Hb. apply andb_prop in Hb as [Hb Hm].
+  assert (Hb' : starts_with is_acct_body r = false) by (destruct (starts_with is_acct_body r); [discriminate|reflexivity]).
+  assert (Hm' : acct_more r = false) by (destruct (acct_more r); [discriminate|reflexivity]).
+  destruct s as [|c s]; [discriminate|]. cbn [app]. destruct (is_acct_type_start c); [|discriminate].
+  destruct (acct_groups (length s) (skip is_acct_body s)) as [t k] eqn:Ea.
+  destruct (1 <=? k) eqn:Ek; [|discriminate]. inversion H; subst t.
+  destruct (skip is_acct_body s) as [|x u] eqn:Es.
+  - rewrite acct_groups_nil in Ea. inversion Ea; subst k. discriminate.
+  - rewrite (skip_app_cons _ _ _ _ r Es).
+    assert (Hl : (length ((x :: u) ++ r) <= length (s ++ r))%nat).
+    { pose proof (skip_length is_acct_body s) as Hl. rewrite Es in Hl. rewrite !app_length. lia. }
+    change (x :: u ++ r) with ((x :: u) ++ r). rewrite (acct_groups_app r Hb' Hm' _ _ _ Ea _ Hl), Ek. reflexivity.
+Qed.
+
+Lemma acct_groups_fst_length : forall f a, (length (fst (acct_groups f a)) <= length a)%nat.
+Proof.
+  induction f as [|f IH]; intros a; [cbn; lia|]. cbn [acct_groups].
+  destruct a as [|c [|d a]]; try (cbn; lia).
+  destruct ((c =? COLON) && is_acct_name_start d); [|cbn; lia].
+  specialize (IH (skip is_acct_body a)). pose proof (skip_length is_acct_body a).
+  destruct (acct_groups f (skip is_acct_body a)) as [t k]. cbn [fst length] in *. lia.
+Qed.
+Lemma acct_groups_nonneg : forall f a, 0 <= snd (acct_groups f a).
+Proof.
+  induction f as [|f IH]; intros a; [cbn; lia|]. cbn [acct_groups].
+  destruct a as [|c [|d a]]; try (cbn; lia).
+  destruct ((c =? COLON) && is_acct_name_start d); [|cbn; lia].
+  specialize (IH (skip is_acct_body a)). destruct (acct_groups f (skip is_acct_body a)) as [t k]. cbn [snd] in *. lia.
+Qed.
+Lemma acct_groups_S f c d a : acct_groups (S f) (c :: d :: a) =
+  if (c =? COLON) && is_acct_name_start d
+  then let (t, k) := acct_groups f (skip is_acct_body a) in (t, k + 1) else (c :: d :: a, 0).
+Proof. reflexivity. Qed.
+Lemma boundary_account_weakest r : boundary_account r = false ->
+  exists s, lexr_account s = Some [] /\ lexr_account (s ++ r) <> Some r.
+Proof.
+  intros Hb. exists [65; 58; 66]. split; [reflexivity|]. destruct r as [|c r]; [discriminate|].
+  unfold boundary_account in Hb. cbn [starts_with] in Hb.
+  cbn [app]. unfold lexr_account. change (is_acct_type_start 65) with true. cbv iota.
+  change (skip is_acct_body (58 :: 66 :: c :: r)) with (58 :: 66 :: c :: r).
+  change (length (58 :: 66 :: c :: r)) with (S (S (S (length r)))).
+  rewrite acct_groups_S. change ((58 =? COLON) && is_acct_name_start 66) with true. cbv iota.
+  destruct (is_acct_body c) eqn:Ec.
+  - (* a component character follows *)
+    assert (EX : skip is_acct_body (c :: r) = skip is_acct_body r) by (cbn [skip]; rewrite Ec; reflexivity).
+    rewrite EX. pose proof (skip_length is_acct_body r) as Hs.
+    pose proof (acct_groups_fst_length (S (S (length r))) (skip is_acct_body r)) as Hg.
+    pose proof (acct_groups_nonneg (S (S (length r))) (skip is_acct_body r)) as Hk.
+    destruct (acct_groups (S (S (length r))) (skip is_acct_body r)) as [t k]. cbn [fst snd] in *.
+    destruct (1 <=? k + 1) eqn:E1; [|lia]. intros H. inversion H as [H'].
+    apply (f_equal (@length Z)) in H'. cbn [length] in H'. lia.
+  - (* ':' and a component start follow *)
+    cbn [negb andb] in Hb. assert (Hm : acct_more (c :: r) = true) by (destruct (acct_more (c :: r)); [reflexivity|discriminate]).
+    destruct r as [|d r]; [discriminate Hm|]. cbn [acct_more] in Hm.
+    assert (EX : skip is_acct_body (c :: d :: r) = c :: d :: r) by (cbn [skip]; rewrite Ec; reflexivity).
+    rewrite EX. change (length (d :: r)) with (S (length r)). rewrite acct_groups_S, Hm.
+    pose proof (skip_length is_acct_body r) as Hs.
+    pose proof (acct_groups_fst_length (S (S (length r))) (skip is_acct_body r)) as Hg.
+    pose proof (acct_groups_nonneg (S (S (length r))) (skip is_acct_body r)) as Hk.
+    destruct (acct_groups (S (S (length r))) (skip is_acct_body r)) as [t k]. cbn [fst snd] in *.
+    destruct (1 <=? k + 1 + 1) eqn:E1; [|lia]. intros H. inversion H as [H'].
+    apply (f_equal (@length Z)) in H'. cbn [length] in H'. lia.
+Qed.
+
+(* ---------------------------------------------------------------------------------------------- *)
+(* CURRENCY: the body run is taken greedily and given back to its last letter or digit: the lexeme grows
+   exactly when the body characters that follow contain a letter or a digit                          *)
+Definition boundary_currency (r : str) : bool := negb (existsb is_cur_end (take is_cur_body r)).
+Lemma rstrip_length p a : (length (rstrip p a) <= length a)%nat.
+Proof.
+  induction a as [|c a IH]; cbn [rstrip length]; [lia|].
+  destruct (rstrip p a); [destruct (p c)|]; cbn [length] in *; lia.
+Qed.
+Lemma rstrip_full p a : length (rstrip p a) = length a -> rstrip p a = a.
+Proof.
+  induction a as [|c a IH]; cbn [rstrip length]; [reflexivity|].
+  pose proof (rstrip_length p a) as Hl.
+  destruct (rstrip p a) as [|x t] eqn:E.
+  - destruct (p c); cbn [length]; [discriminate|]. intros H. destruct a; [reflexivity|cbn [length] in H; lia].
+  - cbn [length] in *. intros H. f_equal. apply IH. lia.
+Qed.
+Lemma rstrip_app_all p a b : forallb p b = true -> rstrip p (a ++ b) = rstrip p a.
+Proof.
+  intros Hb. induction a as [|c a IH]; cbn [app rstrip].
+  - apply rstrip_nil_iff. exact Hb.
+  - rewrite IH. reflexivity.
+Qed.
+Lemma skipn_nil_length {A} n (l : list A) : skipn n l = [] -> (length l <= n)%nat.
+Proof.
+  revert l. induction n as [|n IH]; intros l; cbn [skipn]; [intros ->; cbn; lia|].
+  destruct l; cbn [length]; [lia|]. intros H. apply IH in H. lia.
+Qed.
+Lemma skipn_exact {A} (a b : list A) : skipn (length a) (a ++ b) = b.
+Proof. induction a as [|x a IH]; [reflexivity|exact IH]. Qed.
+Lemma not_end_forall b : existsb is_cur_end b = false -> forallb (fun x => negb (is_cur_end x)) b = true.
+Proof.
+  induction b as [|c b IH]; cbn [existsb forallb]; [reflexivity|].
+  intros H. apply orb_false_iff in H as [Hc Hb]. rewrite Hc, (IH Hb). reflexivity.
+Qed.
+(* a complete lexeme is its first character and a body run that ends in a letter or digit *)
+Lemma currency_full_shape s : let t := rstrip (fun x => negb (is_cur_end x)) (take is_cur_body s) in
+  skipn (length t) s = [] -> t = s /\ forallb is_cur_body s = true.
+Proof.
+  intros t H. apply skipn_nil_length in H.
+  pose proof (rstrip_length (fun x => negb (is_cur_end x)) (take is_cur_body s)) as H1.
+  pose proof (take_length is_cur_body s) as H2. fold t in H1.
+  assert (Ht : take is_cur_body s = s) by (apply take_full; lia).
+  split.
+  - unfold t. rewrite Ht. apply rstrip_full. unfold t in H. rewrite Ht in H.
+    pose proof (rstrip_length (fun x => negb (is_cur_end x)) s). lia.
+  - rewrite <- Ht. apply take_forall.
+Qed.
+Theorem extent_stable_currency s r :
+  lexr_currency s = Some [] -> boundary_currency r = true -> lexr_currency (s ++ r) = Some r.
+Proof.
+  unfold lexr_currency, boundary_currency. intros H Hb.
+  assert (Hb' : forallb (fun x => negb (is_cur_end x)) (take is_cur_body r) = true).
+  { apply not_end_forall. destruct (existsb is_cur_end (take is_cur_body r)); [discriminate|reflexivity]. }
+  destruct s as [|c s]; [discriminate|]. cbn [app].
+  assert (K : skipn (length (rstrip (fun x => negb (is_cur_end x)) (take is_cur_body s))) s = [] ->
+              rstrip (fun x => negb (is_cur_end x)) (take is_cur_body (s ++ r)) = s /\
+              rstrip (fun x => negb (is_cur_end x)) (take is_cur_body s) = s).
+  { intros Hs. destruct (currency_full_shape s Hs) as [Ht Hall].
+    rewrite (take_app_all _ _ r Hall), (rstrip_app_all _ _ _ Hb').
+    rewrite (take_all _ _ Hall) in Ht. split; [exact Ht|]. rewrite (take_all _ _ Hall). exact Ht. }
+  destruct (c =? SLASH).
+  - destruct (existsb is_upper (rstrip (fun x => negb (is_cur_end x)) (take is_cur_body s))) eqn:Eu; [|discriminate].
+    inversion H as [Hs]. destruct (K Hs) as [K1 K2]. rewrite K1. rewrite K2 in Eu. rewrite Eu, skipn_exact. reflexivity.
+  - destruct (is_upper c); [|discriminate].
+    destruct (is_nil (rstrip (fun x => negb (is_cur_end x)) (take is_cur_body s))) eqn:En; [discriminate|].
+    inversion H as [Hs]. destruct (K Hs) as [K1 K2]. rewrite K1. rewrite K2 in En. rewrite En, skipn_exact. reflexivity.
+Qed.
+
+Lemma boundary_currency_weakest r : boundary_currency r = false ->
+  exists s, lexr_currency s = Some [] /\ lexr_currency (s ++ r) <> Some r.
+Proof.
+  intros Hb. exists [65; 65]. split; [reflexivity|].
+  unfold boundary_currency in Hb.
+  assert (He : existsb is_cur_end (take is_cur_body r) = true)
+    by (destruct (existsb is_cur_end (take is_cur_body r)); [reflexivity|discriminate]).
+  assert (Hn : rstrip (fun x => negb (is_cur_end x)) (take is_cur_body r) <> []).
+  { intros E. apply rstrip_nil_iff in E. clear Hb. induction (take is_cur_body r) as [|x l IH]; [discriminate|].
+    cbn [existsb forallb] in *. apply andb_prop in E as [E1 E2]. destruct (is_cur_end x); [discriminate|]. auto. }
+  cbn [app]. unfold lexr_currency. change (65 =? SLASH) with false. change (is_upper 65) with true. cbv iota.
+  cbn [take]. change (is_cur_body 65) with true. cbv iota. cbn [rstrip].
+  destruct (rstrip (fun x => negb (is_cur_end x)) (take is_cur_body r)) as [|x t]; [congruence|].
+  cbn [is_nil length skipn]. intros H. inversion H as [H'].
+  destruct r as [|c r]; [discriminate He|].
+  pose proof (skipn_length (length t) r) as Hl. rewrite H' in Hl. cbn [length] in Hl. lia.
+Qed.
+
+(* ---------------------------------------------------------------------------------------------- *)
+(* blanks, the end of the text and ", " are boundaries of every value terminal                     *)
+Definition sep_start (r : str) : bool := blank_start r || comma_blank r.
+Lemma sep_start_cases r : sep_start r = true ->
+  r = [] \/ (exists c t, r = c :: t /\ is_blank c = true) \/ (exists d t, r = COMMA :: d :: t /\ is_blank d = true).
+Proof.
+  unfold sep_start, blank_start, comma_blank. destruct r as [|c r]; [left; reflexivity|]. intros H.
+  apply orb_prop in H as [H|H]; [right; left; exists c, r; split; [reflexivity|exact H]|].
+  destruct r as [|d r]; [discriminate|]. apply andb_prop in H as [Hc Hd]. apply Z.eqb_eq in Hc. subst c.
+  right; right. exists d, r. split; [reflexivity|exact Hd].
+Qed.
+Lemma blank_start_sep r : blank_start r = true -> sep_start r = true.
+Proof. unfold sep_start. intros ->. reflexivity. Qed.
+Lemma comma_blank_sep r : comma_blank r = true -> sep_start r = true.
+Proof. unfold sep_start. intros ->. apply orb_true_r. Qed.
+
+Lemma blank_facts c : is_blank c = true ->
+  is_digit c = false /\ (c =? DOT) = false /\ (c =? COMMA) = false /\ is_tagchar c = false /\
+  is_acct_body c = false /\ (c =? COLON) = false /\ is_cur_body c = false.
+Proof.
+  unfold is_blank, is_tagchar, is_acct_body, is_cur_body, is_nonascii, is_upper, is_lower, is_digit,
+    SPACE, TAB, CR, NL, DOT, COMMA, COLON, DASH, USCORE, SLASH. lia.
+Qed.
+Lemma comma3_head c t : (c =? COMMA) = false -> comma3 (c :: t) = false.
+Proof. intros H. destruct t as [|d1 [|d2 [|d3 t]]]; cbn [comma3]; try reflexivity. rewrite H. reflexivity. Qed.
+Lemma comma3_second c d t : is_digit d = false -> comma3 (c :: d :: t) = false.
+Proof.
+  intros H. destruct t as [|d2 [|d3 t]]; cbn [comma3]; try reflexivity. rewrite H, andb_false_r. reflexivity.
+Qed.
+Lemma acct_more_head c t : (c =? COLON) = false -> acct_more (c :: t) = false.
+Proof. intros H. destruct t; cbn [acct_more]; [reflexivity|]. rewrite H. reflexivity. Qed.
+
+Lemma boundary_date_sep r : sep_start r = true -> boundary_date r = true.
+Proof.
+  intros H. destruct (sep_start_cases r H) as [-> | [[c [t [-> Hc]]] | [d [t [-> Hd]]]]]; try reflexivity.
+  unfold boundary_date. cbn [starts_with]. destruct (blank_facts c Hc) as [-> _]. reflexivity.
+Qed.
+Lemma boundary_number_sep r : sep_start r = true -> boundary_number r = true.
+Proof.
+  intros H. destruct (sep_start_cases r H) as [-> | [[c [t [-> Hc]]] | [d [t [-> Hd]]]]]; [reflexivity| |].
+  - unfold boundary_number. cbn [starts_with starts_with1].
+    destruct (blank_facts c Hc) as (-> & -> & Hcm & _). rewrite (comma3_head _ _ Hcm). reflexivity.
+  - unfold boundary_number. cbn [starts_with starts_with1].
+    destruct (blank_facts d Hd) as (Hdd & _). rewrite (comma3_second _ _ _ Hdd). reflexivity.
+Qed.
+Lemma boundary_tag_sep r : sep_start r = true -> boundary_tag r = true.
+Proof.
+  intros H. destruct (sep_start_cases r H) as [-> | [[c [t [-> Hc]]] | [d [t [-> Hd]]]]]; try reflexivity.
+  unfold boundary_tag. cbn [starts_with]. destruct (blank_facts c Hc) as (_ & _ & _ & -> & _). reflexivity.
+Qed.
+Lemma boundary_link_sep r : sep_start r = true -> boundary_link r = true.
+Proof. exact (boundary_tag_sep r). Qed.
+Lemma boundary_account_sep r : sep_start r = true -> boundary_account r = true.
+Proof.
+  intros H. destruct (sep_start_cases r H) as [-> | [[c [t [-> Hc]]] | [d [t [-> Hd]]]]]; try reflexivity.
+  unfold boundary_account. cbn [starts_with]. destruct (blank_facts c Hc) as (_ & _ & _ & _ & -> & Hcol & _).
+  rewrite (acct_more_head _ _ Hcol). reflexivity.
+Qed.
+Lemma boundary_currency_sep r : sep_start r = true -> boundary_currency r = true.
+Proof.
+  intros H. destruct (sep_start_cases r H) as [-> | [[c [t [-> Hc]]] | [d [t [-> Hd]]]]]; try reflexivity.
+  unfold boundary_currency. cbn [take]. destruct (blank_facts c Hc) as (_ & _ & _ & _ & _ & _ & ->). reflexivity.
+Qed.
+(* a comment ends at the line end only *)
+Lemma boundary_inline_eol r : r = [] \/ starts_with is_crnl r = true -> boundary_inline r = true.
+Proof. intros [-> | H]; [reflexivity|]. destruct r; [discriminate|exact H]. Qed.
+
+(* ---------------------------------------------------------------------------------------------- *)
+(* the kinds of lexemes of a directive line, and the tiny printing model                            *)
+Inductive kind :=
+  KString | KDate | KNumber | KTag | KLink | KMetaKey | KBool | KNull | KAccount | KCurrency | KTxFlag | KPFlag
+  | KInline.
+Definition lexr_of (k : kind) : str -> option str :=
+  match k with
+  | KString => lexr_string | KDate => lexr_date | KNumber => lexr_number | KTag => lexr_tag | KLink => lexr_link
+  | KMetaKey => lexr_metakey | KBool => lexr_bool | KNull => lexr_null | KAccount => lexr_account
+  | KCurrency => lexr_currency | KTxFlag => lexr_txflag | KPFlag => lexr_pflag | KInline => lexr_inline
+  end.
+Definition boundary_of (k : kind) : str -> bool :=
+  match k with
+  | KString => boundary_string | KDate => boundary_date | KNumber => boundary_number | KTag => boundary_tag
+  | KLink => boundary_link | KMetaKey => boundary_metakey | KBool => boundary_bool | KNull => boundary_null
+  | KAccount => boundary_account | KCurrency => boundary_currency | KTxFlag => boundary_txflag
+  | KPFlag => boundary_pflag | KInline => boundary_inline
+  end.
+Definition is_value_kind (k : kind) : bool := match k with KInline => false | _ => true end.
+
+Theorem extent_stable_of k s r : lexr_of k s = Some [] -> boundary_of k r = true -> lexr_of k (s ++ r) = Some r.
+Proof.
+  destruct k; cbn [lexr_of boundary_of].
+  - apply extent_stable_string. - apply extent_stable_date. - apply extent_stable_number.
+  - apply extent_stable_tag. - apply extent_stable_link. - apply extent_stable_metakey.
+  - apply extent_stable_bool. - apply extent_stable_null. - apply extent_stable_account.
+  - apply extent_stable_currency. - apply extent_stable_txflag. - apply extent_stable_pflag.
+  - apply extent_stable_inline.
+Qed.
+(* a value token followed by a blank, by ", " or by the end of the text re-lexes with the same extent *)
+Theorem blank_is_boundary k r : is_value_kind k = true -> sep_start r = true -> boundary_of k r = true.
+Proof.
+  destruct k; cbn [is_value_kind boundary_of]; intros Hk H; try reflexivity; try discriminate.
+  - exact (boundary_date_sep r H). - exact (boundary_number_sep r H). - exact (boundary_tag_sep r H).
+  - exact (boundary_link_sep r H). - exact (boundary_account_sep r H). - exact (boundary_currency_sep r H).
+Qed.
+
+(* separator characters (what the scanner skips between lexemes): blanks and ',' *)
+Definition is_sepchar (c : Z) : bool := is_blank c || (c =? COMMA).
+(* a gap after a lexeme of kind k: separator characters only, starting with a blank or with ',' + blank
+   (after a comment: with the line end) *)
+Definition gap_ok (k : kind) (g : str) : bool :=
+  forallb is_sepchar g &&
+  match k with
+  | KInline => starts_with is_crnl g
+  | _ => negb (is_nil g) && sep_start g
+  end.
+Definition item := (kind * str * str)%type.      (* kind, lexeme, the gap printed after it *)
+Fixpoint print (items : list item) : str :=
+  match items with [] => [] | (k, s, g) :: rest => s ++ g ++ print rest end.
+(* every lexeme is a complete lexeme of its kind; every gap is a gap (the last one may be empty) *)
+Fixpoint items_ok (items : list item) : Prop :=
+  match items with
+  | [] => True
+  | (k, s, g) :: rest =>
+    lexr_of k s = Some [] /\ (gap_ok k g = true \/ (g = [] /\ rest = [])) /\ items_ok rest
+  end.
+(* scanning with the expected kinds: recognise, cut the lexeme, skip separator characters *)
+Fixpoint scan (ks : list kind) (text : str) : option (list str) :=
+  match ks with
+  | [] => if is_nil text then Some [] else None
+  | k :: ks' =>
+    match lexr_of k text with
+    | None => None
+    | Some rest =>
+      match scan ks' (skip is_sepchar rest) with
+      | None => None
+      | Some ls => Some (firstn (length text - length rest) text :: ls)
+      end
+    end
+  end.
+
+Definition head_ok (s : str) : bool := match s with c :: _ => negb (is_sepchar c) | [] => false end.
+Lemma strip_prefix_head c0 p' s t : strip_prefix (c0 :: p') s = Some t -> is_sepchar c0 = false -> head_ok s = true.
+Proof.
+  intros H Hc. revert H. cbn [strip_prefix]. destruct s as [|c s]; [discriminate|]. destruct (c =? c0) eqn:E; [|discriminate].
+  apply Z.eqb_eq in E. subst c. intros _. cbn [head_ok]. rewrite Hc. reflexivity.
+Qed.
+Lemma digit_not_sep c : is_digit c = true -> negb (is_sepchar c) = true.
+Proof. unfold is_sepchar, is_blank, is_digit, SPACE, TAB, CR, NL, COMMA. lia. Qed.
+Lemma flag_not_sep c : is_flagchar c = true -> negb (is_sepchar c) = true.
+Proof. unfold is_sepchar, is_blank, is_flagchar, SPACE, TAB, CR, NL, COMMA. lia. Qed.
+Lemma take_digit_head s : 0 < zlen (take is_digit s) -> head_ok s = true.
+Proof.
+  destruct s as [|c s]; cbn [take]; [cbn; lia|]. destruct (is_digit c) eqn:E; [|cbn; lia].
+  intros _. cbn [head_ok]. exact (digit_not_sep _ E).
+Qed.
+Lemma lexeme_head k s : lexr_of k s = Some [] -> head_ok s = true.
+Proof.
+  destruct k; cbn [lexr_of].
+  - unfold lexr_string. destruct s as [|c s]; [discriminate|]. destruct (c =? QUOTE) eqn:E; [|discriminate].
+    apply Z.eqb_eq in E. subst c. reflexivity.
+  - unfold lexr_date. destruct (4 <=? zlen (take is_digit s)) eqn:E; [|discriminate]. intros _.
+    apply take_digit_head. lia.
+  - unfold lexr_number. destruct (zlen (take is_digit s) =? 0) eqn:E; [discriminate|]. intros _.
+    apply take_digit_head. pose proof (zlen_nonneg (take is_digit s)). lia.
+  - unfold lexr_tag, lexr_prefixed. destruct s as [|c s]; [discriminate|]. destruct (c =? HASH) eqn:E; [|discriminate].
+    apply Z.eqb_eq in E. subst c. reflexivity.
+  - unfold lexr_link, lexr_prefixed. destruct s as [|c s]; [discriminate|]. destruct (c =? CARET) eqn:E; [|discriminate].
+    apply Z.eqb_eq in E. subst c. reflexivity.
+  - unfold lexr_metakey. destruct s as [|c s]; [discriminate|]. destruct (is_lower c) eqn:E; [|discriminate].
+    intros _. cbn [head_ok]. revert E. unfold is_sepchar, is_blank, is_lower, SPACE, TAB, CR, NL, COMMA. lia.
+  - unfold lexr_bool. intros H. destruct (strip_prefix FALSE_ s) as [t|] eqn:E.
+    + exact (strip_prefix_head _ _ _ _ E eq_refl).
+    + exact (strip_prefix_head _ _ _ _ H eq_refl).
+  - unfold lexr_null. intros H. exact (strip_prefix_head _ _ _ _ H eq_refl).
+  - unfold lexr_account. destruct s as [|c s]; [discriminate|]. destruct (is_acct_type_start c) eqn:E; [|discriminate].
+    intros _. cbn [head_ok]. revert E.
+    unfold is_sepchar, is_blank, is_acct_type_start, is_upper, is_nonascii, SPACE, TAB, CR, NL, COMMA. lia.
+  - unfold lexr_currency. destruct s as [|c s]; [discriminate|]. cbn [head_ok].
+    destruct (c =? SLASH) eqn:E; [apply Z.eqb_eq in E; subst c; reflexivity|].
+    destruct (is_upper c) eqn:Eu; [|discriminate]. intros _. revert Eu.
+    unfold is_sepchar, is_blank, is_upper, SPACE, TAB, CR, NL, COMMA. lia.
+  - unfold lexr_txflag. intros H. destruct (strip_prefix TXN_ s) as [t|] eqn:E.
+    + exact (strip_prefix_head _ _ _ _ E eq_refl).
+    + unfold lexr_pflag in H. destruct s as [|c s]; [discriminate|]. destruct (is_flagchar c) eqn:Ef; [|discriminate].
+      exact (flag_not_sep _ Ef).
+  - unfold lexr_pflag. destruct s as [|c s]; [discriminate|]. destruct (is_flagchar c) eqn:Ef; [|discriminate].
+    intros _. exact (flag_not_sep _ Ef).
+  - unfold lexr_inline. destruct s as [|c s]; [discriminate|]. destruct (c =? SEMI) eqn:E; [|discriminate].
+    apply Z.eqb_eq in E. subst c. reflexivity.
+Qed.
+
+Lemma gap_boundary k g x : gap_ok k g = true -> boundary_of k (g ++ x) = true.
+Proof.
+  unfold gap_ok. intros H. apply andb_prop in H as [_ H]. destruct (is_value_kind k) eqn:Ek.
+  - apply blank_is_boundary; [exact Ek|].
+    assert (H' : negb (is_nil g) && sep_start g = true) by (destruct k; try exact H; discriminate).
+    apply andb_prop in H' as [Hn Hs]. destruct g as [|c g]; [discriminate|].
+    unfold sep_start, blank_start, comma_blank in *. cbn [app].
+    destruct g as [|d g]; [|exact Hs]. cbn [app]. apply orb_prop in Hs as [Hs|Hs]; [|discriminate].
+    rewrite Hs. reflexivity.
+  - destruct k; try discriminate. cbn [boundary_of]. destruct g as [|c g]; [discriminate|]. exact H.
+Qed.
+Lemma gap_skip k g x : gap_ok k g = true -> x = [] \/ head_ok x = true -> skip is_sepchar (g ++ x) = x.
+Proof.
+  unfold gap_ok. intros H Hx. apply andb_prop in H as [H _]. rewrite (skip_all_app _ _ _ H).
+  destruct Hx as [-> | Hx]; [reflexivity|]. apply skip_id. destruct x as [|c x]; [reflexivity|].
+  cbn [head_ok] in Hx. cbn [starts_with]. destruct (is_sepchar c); [discriminate|reflexivity].
+Qed.
+Lemma print_head items : items_ok items -> print items = [] \/ head_ok (print items) = true.
+Proof.
+  destruct items as [|[[k s] g] rest]; [left; reflexivity|]. cbn [items_ok print]. intros [H _]. right.
+  apply lexeme_head in H. destruct s as [|c s]; [discriminate|]. exact H.
+Qed.
+
+Theorem separated_relex items : items_ok items ->
+  scan (map (fun i => fst (fst i)) items) (print items) = Some (map (fun i => snd (fst i)) items).
+Proof.
+  induction items as [|[[k s] g] rest IH]; [reflexivity|].
+  cbn [items_ok print map fst snd scan]. intros [Hs [Hg Hrest]].
+  assert (Hb : boundary_of k (g ++ print rest) = true).
+  { destruct Hg as [Hg | [-> ->]]; [exact (gap_boundary _ _ _ Hg)|].
+    cbn [print app]. destruct (is_value_kind k) eqn:Ek; [apply blank_is_boundary; [exact Ek|reflexivity]|].
+    destruct k; try discriminate. reflexivity. }
+  rewrite (extent_stable_of k s _ Hs Hb).
+  assert (Hk : skip is_sepchar (g ++ print rest) = print rest).
+  { destruct Hg as [Hg | [-> ->]]; [exact (gap_skip _ _ _ Hg (print_head _ Hrest))|reflexivity]. }
+  rewrite Hk, (IH Hrest), firstn_exact. reflexivity.
+Qed.
+
+(* ---------------------------------------------------------------------------------------------- *)
+(* where separation is really needed: complete lexemes whose extent changes when text follows directly
+   (each left component is a complete lexeme, the concatenation is lexed differently)               *)
+(* "1" ++ ",234": one NUMBER 1,234 *)
+Example number_comma_needs_sep :
+  lexr_number [49] = Some [] /\ lexr_number ([49] ++ [44; 50; 51; 52]) = Some [].
+Proof. split; vm_compute; reflexivity. Qed.
+(* "3" ++ ",2012-01-01" (a cost "3" then a date, written without blank): NUMBER 3,201 and the rest 2-01-01 *)
+Example number_comma_date_needs_sep :
+  lexr_number ([51] ++ [44; 50; 48; 49; 50; 45; 48; 49; 45; 48; 49]) = Some [50; 45; 48; 49; 45; 48; 49].
+Proof. vm_compute. reflexivity. Qed.
+(* "12" ++ ".5" and "12" ++ "5" *)
+Example number_dot_digit_need_sep :
+  lexr_number ([49; 50] ++ [46; 53]) = Some [] /\ lexr_number ([49; 50] ++ [53]) = Some [].
+Proof. split; vm_compute; reflexivity. Qed.
+(* but "1,234" ++ "5" keeps its extent: the group is exactly three digits *)
+Example number_group_is_three : lexr_number ([49; 44; 50; 51; 52] ++ [53]) = Some [53].
+Proof. vm_compute. reflexivity. Qed.
+(* "#a" ++ "b" is the TAG #ab *)
+Example tag_needs_sep : lexr_tag [35; 97] = Some [] /\ lexr_tag ([35; 97] ++ [98]) = Some [].
+Proof. split; vm_compute; reflexivity. Qed.
+Example link_needs_sep : lexr_link [94; 98] = Some [] /\ lexr_link ([94; 98] ++ [98]) = Some [].
+Proof. split; vm_compute; reflexivity. Qed.
+(* "2012-01-1" ++ "5" is the DATE 2012-01-15; after a two-digit day a digit is not taken *)
+Example date_needs_sep :
+  lexr_date [50; 48; 49; 50; 45; 48; 49; 45; 49] = Some [] /\
+  lexr_date ([50; 48; 49; 50; 45; 48; 49; 45; 49] ++ [53]) = Some [] /\
+  lexr_date ([50; 48; 49; 50; 45; 48; 49; 45; 48; 49] ++ [53]) = Some [53].
+Proof. repeat split; vm_compute; reflexivity. Qed.
+(* "BBB" ++ "USD" is one CURRENCY; "USD" ++ "-X" too; "USD" ++ "-" keeps its extent *)
+Example currency_needs_sep :
+  lexr_currency [66; 66; 66] = Some [] /\ lexr_currency ([66; 66; 66] ++ [85; 83; 68]) = Some [] /\
+  lexr_currency ([85; 83; 68] ++ [45; 88]) = Some [] /\ lexr_currency ([85; 83; 68] ++ [45]) = Some [45].
+Proof. repeat split; vm_compute; reflexivity. Qed.
+(* "A:B" ++ "c" and "A:B" ++ ":C" are one ACCOUNT *)
+Example account_needs_sep :
+  lexr_account [65; 58; 66] = Some [] /\ lexr_account ([65; 58; 66] ++ [99]) = Some [] /\
+  lexr_account ([65; 58; 66] ++ [58; 67]) = Some [].
+Proof. repeat split; vm_compute; reflexivity. Qed.
+(* a blank does not end a comment *)
+Example inline_blank_is_no_boundary : lexr_inline ([59; 32; 120] ++ [32; 121]) = Some [].
+Proof. vm_compute. reflexivity. Qed.
+(* the recogniser BOOL stops after TRUE whatever follows (the choice BOOL / CURRENCY at "TRUEX" is lark's) *)
+Example bool_any_continuation : lexr_bool ([84; 82; 85; 69] ++ [88]) = Some [88] /\ lexr_currency ([84; 82; 85; 69] ++ [88]) = Some [].
+Proof. split; vm_compute; reflexivity. Qed.
+
+(* non-vacuity of separated_relex:
+     2012-01-01 * "x" #t ^b\n     and     Assets:A  1,234.50 USD, EUR ; c\n                       *)
+Definition ex_items1 : list item :=
+  [ (KDate, [50; 48; 49; 50; 45; 48; 49; 45; 48; 49], [32]); (KTxFlag, [42], [32]); (KString, [34; 120; 34], [32]);
+    (KTag, [35; 116], [32]); (KLink, [94; 98], [10]) ].
+Definition ex_items2 : list item :=
+  [ (KAccount, [65; 115; 115; 101; 116; 115; 58; 65], [32; 32]); (KNumber, [49; 44; 50; 51; 52; 46; 53; 48], [32]);
+    (KCurrency, [85; 83; 68], [44; 32]); (KCurrency, [69; 85; 82], [32]); (KInline, [59; 32; 99], [10]) ].
+Example ex_items1_ok : items_ok ex_items1.
+Proof. cbn [items_ok ex_items1]. repeat split; try (left; reflexivity); vm_compute; reflexivity. Qed.
+Example ex_items2_ok : items_ok ex_items2.
+Proof. cbn [items_ok ex_items2]. repeat split; try (left; reflexivity); vm_compute; reflexivity. Qed.
+Example ex_relex2 :
+  scan [KAccount; KNumber; KCurrency; KCurrency; KInline] (print ex_items2) =
+  Some [[65; 115; 115; 101; 116; 115; 58; 65]; [49; 44; 50; 51; 52; 46; 53; 48]; [85; 83; 68]; [69; 85; 82]; [59; 32; 99]].
+Proof. exact (separated_relex ex_items2 ex_items2_ok). Qed.
+(* without the gaps the same lexemes are not scanned back: "USD" "EUR" printed tight is one currency *)
+Example ex_tight_fails :
+  scan [KCurrency; KCurrency] ([85; 83; 68] ++ [69; 85; 82]) = None.
+Proof. vm_compute. reflexivity. Qed.
+Example ex_relex2_full :
+  items_ok ex_items2 /\
+  scan (map (fun i => fst (fst i)) ex_items2) (print ex_items2) = Some (map (fun i => snd (fst i)) ex_items2).
+Proof. split; [exact ex_items2_ok | exact (separated_relex _ ex_items2_ok)]. Qed.
